@@ -404,6 +404,58 @@ def sweep4_one(rows, stmts, acc, only=None):
         acc.count('distinct_removed', info.get('distinct_removed', 0))
 
 
+# ---- sweep 5: DISTINCT over different rows whose HASHES collide (hash(-1) == hash(-2) in CPython) ------
+
+HCOLS = [('k', str), ('v', int)]
+HALPHA = [('a', -1), ('a', -2), ('a', None), (None, -1), (None, -2)]
+
+
+def hstatements():
+    k, v = col('k'), col('v')
+    return [
+        ('v', select([(v, None)], from_='t', distinct=True)),
+        ('k,v', select([(k, None), (v, None)], from_='t', distinct=True)),
+        ('v order', select([(v, None)], from_='t', distinct=True, order_by=[A.OrderBy(col('v'), DESC)])),
+        ('v,k limit', select([(v, None), (k, None)], from_='t', distinct=True, limit=2)),
+        ('v grouped', select([(v, None)], from_='t', distinct=True, group_by=A.GroupBy([col('v'), col('k')], None))),
+    ]
+
+
+def sweep5(shard, nshards, L):
+    acc = Acc()
+    stmts = hstatements()
+    idx = 0
+    for n in range(0, L + 1):
+        for rows in itertools.product(HALPHA, repeat=n):
+            idx += 1
+            if mine(idx, shard, nshards):
+                sweep5_one(list(rows), stmts, acc)
+    return acc
+
+
+def sweep5_one(rows, stmts, acc, only=None):
+    table = HTable(HCOLS, rows)
+    conn = connect(t=table, postings=table)
+    for tag, stmt in stmts:
+        if only is not None and tag != only:
+            continue
+        acc.count('executions')
+        acc.count('hash_collision_distinct_statements')
+        try:
+            names, exp, info = refselect.execute(stmt, [n for n, _ in HCOLS], rows, dict(HCOLS))
+        except RefError:
+            acc.count('ref_unsupported')
+            continue
+        try:
+            got = conn.execute(stmt).fetchall()
+        except Exception as e:
+            acc.violation(f'crash:{crash_fingerprint(e)}', f'{show(stmt)} on {rows!r} raised {type(e).__name__}: {e}', {'kind': 'collide', 'tag': tag, 'rows': jsonable(rows)})
+            continue
+        if [tuple(map(typed, r)) for r in got] != [tuple(map(typed, r)) for r in exp]:
+            acc.violation('distinct:equal-hash-different-rows', f'{show(stmt)} on rows {rows!r}: got {got!r}, reference {exp!r}',
+                          {'kind': 'collide', 'tag': tag, 'rows': jsonable(rows)})
+
+
 def typed_u(v):
     return (type(v).__name__, repr(v))
 
@@ -412,6 +464,9 @@ def replay(c):
     acc = Acc()
     if c['kind'] == 'unhashable':
         sweep4_one([tuple(r) for r in unjson(c['rows'])], ustatements(), acc, only=c['tag'])
+        return acc.violations
+    if c['kind'] == 'collide':
+        sweep5_one([tuple(r) for r in unjson(c['rows'])], hstatements(), acc, only=c['tag'])
         return acc.violations
     if c['kind'] == 'pair':
         sweep2_pair(ledger_conn(), c['table'], c['c1'], c['c2'], acc)
@@ -440,6 +495,7 @@ def run(ctx):
     acc3 = Acc()
     sweep3(acc3)
     acc3.merge(run_shards(sweep4, ctx.jobs, ctx.pick(3, 4)))
+    acc3.merge(run_shards(sweep5, ctx.jobs, ctx.pick(3, 4)))
     n = acc.n
     ex = n['executions'] + acc2.n['executions'] + acc3.n['executions']
     cov = {
@@ -456,6 +512,7 @@ def run(ctx):
         'table_kind_sweep': {'column_pairs': acc2.n['column_pairs'], 'pairs_where_order_changes_rows': acc2.n['pairs_where_order_changes_rows']},
         'subquery_order_statements': acc3.n['subquery_order_statements'],
         'distinct_over_unhashable_values_statements': acc3.n['unhashable_distinct_statements'],
+        'distinct_over_equal_hash_rows_statements': acc3.n['hash_collision_distinct_statements'],
         'samples': acc.samples,
     }
     return Result(cov, acc.violations + acc2.violations + acc3.violations,
